@@ -345,7 +345,11 @@ func genIdleOps(rng *rand.Rand, c *Case, unit, ooo int64) {
 	c.Ops = append(c.Ops, []string{"itick"}, []string{"drain"})
 }
 
-func (c02) Gen(rng *rand.Rand, tier string, idx int) Case {
+func (p c02) Gen(rng *rand.Rand, tier string, idx int) Case {
+	return maybeReset(rng, p.gen0(rng, tier, idx))
+}
+
+func (c02) gen0(rng *rand.Rand, tier string, idx int) Case {
 	var c Case
 	if idx%15 == 14 {
 		// SQL-level stage with ALLOWEDLATENESS: re-deliveries carry the same window bounds / window_id
